@@ -84,6 +84,19 @@ def str_forms(ty, v):
     return out
 
 
+def _near_misses(values):
+    """Spellings that differ from an allowed value only by case or surrounding blanks and are not allowed
+    themselves: they must be rejected like any other value outside the list."""
+    out = []
+    for v in values:
+        if not isinstance(v, str) or not v:
+            continue
+        for w in (v.lower(), v.upper(), v.capitalize(), " " + v, v + " "):
+            if w not in values and w not in out and ":" not in w:
+                out.append(w)
+    return out
+
+
 @st.composite
 def supplied_for(draw, d, cli):
     """One supplied (name, kind, value) for the declared parameter d."""
@@ -94,6 +107,8 @@ def supplied_for(draw, d, cli):
         kinds.append("int_for_float")
     if values:
         kinds.append("not_allowed")
+        if ty == "str" and _near_misses(values):
+            kinds.append("near_miss")
     if ty != "str":
         kinds += ["unparseable", "lossy"] if ty == "int" else ["unparseable"]
         # an instance of a subclass of the declared type (bool / int subclass for int, numpy.float64 for float):
@@ -119,6 +134,8 @@ def supplied_for(draw, d, cli):
             kind, v = "typed", draw(st.sampled_from(good))
         else:
             v = draw(st.sampled_from(cands))
+    elif kind == "near_miss":
+        v = draw(st.sampled_from(_near_misses(values)))
     elif kind == "subclass":
         cands = [x for x in good if x == x and abs(x) < 1e15]
         if not cands:
@@ -210,6 +227,8 @@ def _pick(d, ent, cli):
         kinds.append("int_for_float")
     if values:
         kinds.append("not_allowed")
+        if ty == "str" and _near_misses(values):
+            kinds.append("near_miss")
     if ty != "str":
         kinds.append("unparseable")
         if ty == "int" and not cli:
@@ -235,6 +254,9 @@ def _pick(d, ent, cli):
         v = cands[ent % len(cands)]
         if cli and ty != "str":
             v = repr(v)
+    elif kind == "near_miss":
+        nm_ = _near_misses(values)
+        v = nm_[ent % len(nm_)]
     elif kind == "unparseable":
         bad = BAD_NUM_STR + (BAD_INT_STR if ty == "int" else [])
         v = bad[ent % len(bad)]
@@ -254,7 +276,7 @@ def expected(defs, supplied):
         if nm not in byname:
             return ("error", "unknown parameter %r" % nm)
         _, ty, values, _ = byname[nm]
-        if kind in ("unparseable", "wrong_type", "not_allowed"):
+        if kind in ("unparseable", "wrong_type", "not_allowed", "near_miss"):
             return ("error", "%s value %r for %s parameter %r" % (kind, v, ty, nm))
         if kind == "lossy":
             lossy.add(nm)
